@@ -91,7 +91,7 @@ func isRefType(t types.Type) bool {
 func extractGlobals() {
 	type gvar struct{ pkg, name, typ string }
 	var globals []gvar
-	var writers, external, externalPkgs, unsafeImports []string
+	var writers, writerPkgs, external, externalPkgs, unsafeImports []string
 	modPrefix := "github.com/free5gc/nas"
 	var excluded []string
 	for _, rel := range modulePackages() {
@@ -160,6 +160,7 @@ func extractGlobals() {
 					}
 					writers = append(writers, fmt.Sprintf("%s.%s in %s.%s (%s:%d): %s", v.Pkg().Name(), v.Name(), rel, fname,
 						filepath.Base(p.Fset.Position(pos).Filename), p.Fset.Position(pos).Line, how))
+					writerPkgs = append(writerPkgs, rel)
 				}
 				benign := map[*ast.Ident]bool{} // occurrences already classified as reads
 				ast.Inspect(fd.Body, func(n ast.Node) bool {
@@ -244,6 +245,7 @@ func extractGlobals() {
 		}
 	}
 	sort.Strings(writers)
+	sort.Strings(writerPkgs)
 	sort.Strings(external)
 	sort.Strings(unsafeImports)
 	var sb strings.Builder
@@ -269,6 +271,7 @@ func extractGlobals() {
 		sb.WriteString("]\n\n")
 	}
 	list("writersOutsideInit", "every place outside `init` where a package-level variable of this module is assigned, has its address taken, or (reference types) is used other than for an index read", writers)
+	list("writerPkgs", "the package directory of each entry of writersOutsideInit (sorted; one per entry)", writerPkgs)
 	list("externalShared", "package-level variables whose type belongs to another module (external, internally synchronised objects)", external)
 	list("externalSharedPkgs", "the package directory of each entry of externalShared", externalPkgs)
 	list("unsafeImports", "imports of unsafe / cgo", unsafeImports)
